@@ -133,6 +133,14 @@ pub fn accepted_class_defect(program: &Program, eps: &ContractEntryPoints, casm:
             entry_fns.push((kind, f.id.clone()));
         }
     }
+    // C19: "the class hashes are stable under JSON round-trips"
+    match serde_json::to_string(casm).ok().and_then(|js| serde_json::from_str::<CasmContractClass>(&js).ok()) {
+        None => return Some(("C19", "the compiled class does not survive printing as JSON and loading it again".into())),
+        Some(back) => {
+            if back.compiled_class_hash() != casm.compiled_class_hash() || back.legacy_compiled_class_hash() != casm.legacy_compiled_class_hash() { return Some(("C19", format!("the class hash changes by a JSON round trip of the compiled class (bytecode segment lengths {:?} -> {:?})", casm.bytecode_segment_lengths, back.bytecode_segment_lengths))); }
+            if &back != casm { return Some(("C19", "the compiled class changes by a JSON round trip".into())); }
+        }
+    }
     // C04: the statically declared entry cost is exactly what the external caller charges
     if let Some(info) = &info {
         let config = MetadataComputationConfig {
